@@ -424,7 +424,12 @@ func c10Levels(tier string) []core.Level {
 		}},
 		{Name: "scale: 1..40, 99..103, 150, 300 and 1000 includes / executions of one embed tag / nested calls in one execution; inline sources that look like paths; an embedded template importing blocks with use", Gen: func(emit func(core.Case)) {
 			ns := []int{99, 100, 101, 102, 103, 150, 300, 1000}
-			for n := 1; n <= 40; n++ {
+			top := 40
+			if thorough(tier) { // every count up to 600 and a few large ones
+				top = 600
+				ns = append(ns, 1023, 1024, 1025, 2048, 4096, 5000, 10000)
+			}
+			for n := 1; n <= top; n++ {
 				ns = append(ns, n)
 			}
 			for kind := 0; kind < 5; kind++ {
